@@ -133,9 +133,9 @@ func c09ConfigGen() *rapid.Generator[c09Config] {
 		}).Draw(t, "types")
 		c.StunMode = rapid.SampledFrom([]string{"now", "later", "later", "never"}).Draw(t, "stunMode")
 		c.TurnProto = rapid.SampledFrom([]string{"udp", "tcp"}).Draw(t, "turnProto")
-		c.TurnMode = rapid.SampledFrom([]string{"ok", "ok", "allocate-blocks", "allocate-blocks", "listen-error", "allocate-error"}).Draw(t, "turnMode")
+		c.TurnMode = rapid.SampledFrom([]string{"ok", "ok", "allocate-blocks", "allocate-blocks", "listen-error", "allocate-error", "factory-error", "relay-linklocal"}).Draw(t, "turnMode")
 		c.Mux = rapid.SampledFrom([]string{"", "", "udp", "tcp"}).Draw(t, "mux")
-		c.Rewrite = rapid.SampledFrom([]string{"", "", "srflx-mapped", "srflx-mapped-2", "host-append", "host-dup", "relay-drop", "relay-append"}).Draw(t, "rewrite")
+		c.Rewrite = rapid.SampledFrom([]string{"", "", "srflx-mapped", "srflx-mapped-2", "srflx-drop", "host-append", "host-dup", "relay-drop", "relay-append"}).Draw(t, "rewrite")
 		if rapid.IntRange(0, 4).Draw(t, "listenErr") == 0 {
 			c.ListenErrAt = rapid.IntRange(1, 4).Draw(t, "listenErrAt")
 		}
@@ -248,6 +248,12 @@ func newC09World(cfg c09Config, extra ...AgentOption) (*c09World, error) {
 	if cfg.Rewrite == "relay-drop" && hasType(cfg.Types, CandidateTypeRelay) {
 		// a replace rule with no externals ("drop") can only be installed below the option layer
 		m, merr := newAddressRewriteMapper([]AddressRewriteRule{{AsCandidateType: CandidateTypeRelay, Mode: AddressRewriteReplace}})
+		if merr == nil {
+			_ = a.loop.Run(a.loop, func(context.Context) { a.addressRewriteMapper = m })
+		}
+	}
+	if cfg.Rewrite == "srflx-drop" && hasType(cfg.Types, CandidateTypeServerReflexive) {
+		m, merr := newAddressRewriteMapper([]AddressRewriteRule{{AsCandidateType: CandidateTypeServerReflexive, Mode: AddressRewriteReplace}})
 		if merr == nil {
 			_ = a.loop.Run(a.loop, func(context.Context) { a.addressRewriteMapper = m })
 		}
